@@ -102,7 +102,7 @@ func Run(s *sim.Sim, res *runner.Result, h Hooks) {
 		}
 		acts = append(acts, w.SleeperActions()...)
 		if w.View != nil && w.View.Manual && w.View.Behind(w.Store.Seq()) {
-			acts = append(acts, sim.Action{Key: "informer cache catches up", Weight: 12, Run: func() { w.View.CatchUp(w.Store.Seq()) }})
+			acts = append(acts, sim.Action{Key: "informer cache catches up", Weight: 2, Run: func() { w.View.CatchUp(w.Store.Seq()) }})
 		}
 		if !s.StepOnce(acts, 30) {
 			break
